@@ -102,6 +102,8 @@ class BuildResult:
         self.discharged: list[str] = []
         self.translator_error = None
         self.forbidden: list[str] = []
+        self.pinned: dict[str, str] = {}        # generated table -> why the pinned copy was used
+        self.gen_notes: list[str] = []
 
 
 def all_v_files():
@@ -133,7 +135,11 @@ def regenerate(res: BuildResult, needed=None):
     """Run the fail-closed translator: /repo -> coq/theories/Gen/*.v.  `needed` = names of the Gen
     files the property depends on (None = all): a refusal on another table does not concern it."""
     env = dict(os.environ, PYTHONPATH=str(REPO), PYTHONHASHSEED="0")
-    rc, out, err = sh([PY, str(VERIF / "tools" / "translate.py"), str(REPO), str(COQ / "theories" / "Gen")], 120, env=env)
+    rc, out, err = sh([PY, str(VERIF / "tools" / "translate.py"), str(REPO), str(COQ / "theories" / "Gen")], 300, env=env)
+    for name, why in re.findall(r"^translator:(\w+): pinned: (.*)$", out, flags=re.M):
+        if needed is None or name in needed:
+            res.pinned[name] = why
+    res.gen_notes = [l for l in out.splitlines() if ": note: " in l and (needed is None or any(f"translator:{n}:" in l for n in needed))]
     if rc != 0:
         refused = set(re.findall(r"^translator:(\w+): refused", out, flags=re.M))
         if needed is None or not refused or (refused & set(needed)):
